@@ -282,6 +282,13 @@ def load_corpus(pid):
         for f in sorted(d.glob('*.scn')):
             out.append(([ln for ln in f.read_text().splitlines()
                          if ln.strip() and not ln.startswith('#')], f.name))
+    if pid in ('C03', 'C04', 'C10'):
+        # the order in which a dispatcher walks its listeners depends on their addresses: every corpus
+        # scenario also runs in five other memory layouts (a `decoy` line - ignored by the model - makes
+        # the runner allocate a second dispatcher doing other things in between)
+        for lines, name in list(out):
+            for k in range(1, 6):
+                out.append(([f'decoy {k}'] + [ln for ln in lines if not ln.startswith('decoy')], f'{name}#{k}'))
     return out
 
 
